@@ -733,3 +733,230 @@ func c05ColdTypes(res *Result) {
 		}
 	}
 }
+
+// fixedRenders: sources with their expected output (ok) or "err"; files are served by one loader
+func fixedRenders(res *Result, proj, sig string, files map[string]string, ctx pongo2.Context, cases [][2]string) {
+	for _, c := range cases {
+		res.Cases++
+		r := implRenderFiles(c[0], files, ctx)
+		got := r.String()
+		want := "ok " + hx(c[1])
+		if c[1] == "err" {
+			want = "err"
+			if r.Err != "" {
+				got = "err"
+			}
+		}
+		if got != want {
+			oracleFail(res, proj, sig, c[0], r.String(), want)
+		}
+	}
+}
+
+// c11IncludeOptions: the words `with` and `only` are option keywords only where an option can stand;
+// as keys of a pair they are ordinary names
+func c11IncludeOptions(res *Result) {
+	files := map[string]string{"show.tpl": "[{{ only }}|{{ with }}|{{ a }}|{{ outer }}]"}
+	ctx := pongo2.Context{"flag": "F", "outer": "O", "name": "show.tpl"}
+	fixedRenders(res, "loaders", "c11-include-options", files, ctx, [][2]string{
+		{`{% include "show.tpl" with only=flag %}`, "[F|||O]"},
+		{`{% include name with only=flag %}`, "[F|||O]"},
+		{`{% include "show.tpl" with a=1 with=flag only %}`, "[|F|1|]"},
+		{`{% include "show.tpl" with only=flag only %}`, "[F|||]"},
+		{`{% include "show.tpl" with a=1 only %}`, "[||1|]"},
+		{`{% include "show.tpl" with a=1 %}`, "[||1|O]"},
+		{`{% include "show.tpl" only %}`, "err"},
+	})
+}
+
+// c13Defaults: a default is an expression like any other, filters included; an imported macro
+// recurses as deep as the same macro defined locally
+func c13Defaults(res *Result) {
+	ctx := pongo2.Context{"fallback": "ctx value", "n3": 3}
+	fixedRenders(res, "binding", "c13-default-expression", map[string]string{}, ctx, [][2]string{
+		{`{% macro badge(label, style="note"|upper) %}[{{ style }}:{{ label }}]{% endmacro %}{{ badge("a") }}{{ badge("b", "x") }}`, "[NOTE:a][x:b]"},
+		{`{% macro w(width=3|add:4) %}{{ width }}{% endmacro %}{{ w() }}|{{ w(1) }}`, "7|1"},
+		{`{% macro d(v=""|default:fallback|upper) %}{{ v }}{% endmacro %}{{ d() }}`, "CTX VALUE"},
+		{`{% macro f(a=1.5|floatformat:0, b=true|yesno:"y,n", c=n3|add:n3) %}{{ a }}{{ b }}{{ c }}{% endmacro %}{{ f() }}`, "2y6"},
+		{`{% macro g(a="x"|add:"y"|add:"z") %}{{ a }}{% endmacro %}{{ g() }}`, "xyz"},
+	})
+	lib := map[string]string{"lib.tpl": `{% macro countdown(n) export %}{% if n > 0 %}{{ countdown(n - 1) }}{% else %}done{% endif %}{% endmacro %}` +
+		`{% macro ping(n) export %}{% if n > 0 %}{{ pong(n - 1) }}{% else %}P{% endif %}{% endmacro %}{% macro pong(n) export %}{% if n > 0 %}{{ ping(n - 1) }}{% else %}Q{% endif %}{% endmacro %}`}
+	local := `{% macro countdown(n) %}{% if n > 0 %}{{ countdown(n - 1) }}{% else %}done{% endif %}{% endmacro %}`
+	for _, n := range []int{1, 100, 400, 499, 500, 600, 900, 998, 1200} {
+		res.Cases++
+		a := implRenderFiles(local+fmt.Sprintf("{{ countdown(%d) }}", n), lib, nil)
+		// (under an alias the body's own name for the macro is not defined in the importing file: C13's assumptions)
+		for _, imp := range []string{`{% import "lib.tpl" countdown %}{{ countdown(N) }}`, `{% import "lib.tpl" countdown, ping %}{{ countdown(N) }}`} {
+			src := strings.Replace(imp, "N", fmt.Sprint(n), 1)
+			b := implRenderFiles(src, lib, nil)
+			if (a.Err == "") != (b.Err == "") || a.Out != b.Out {
+				oracleFail(res, "binding", "c13-imported-recursion-depth", src, b.String(), a.String()+" (the same macro defined locally)")
+			}
+		}
+	}
+}
+
+// onlyWriter hides every method of the buffer but Write
+type onlyWriter struct{ b *bytes.Buffer }
+
+func (o onlyWriter) Write(p []byte) (int, error) { return o.b.Write(p) }
+
+// c14StaticLooking: a template that is all text and includes, whose include evaluates a pair that fails
+func c14StaticLooking(res *Result) {
+	files := map[string]string{"/footer.tpl": "<footer>(c)</footer>", "/footer2.tpl": "<footer>{{ year }}</footer>", "/imprint.tpl": "<h1>Imprint</h1>\n{% include \"/footer.tpl\" with year=1/zero %}<p>end</p>",
+		"/imprint2.tpl": "<h1>Imprint</h1>\n{% include \"/footer2.tpl\" with year=1/zero only %}", "/imprint3.tpl": "{# c #}text{% templatetag openblock %}\n{% include \"/imprint.tpl\" %}"}
+	set := pongo2.NewSet("c14-static", &memLoader{files: files})
+	for _, name := range []string{"/imprint.tpl", "/imprint2.tpl", "/imprint3.tpl"} {
+		tpl, err := set.FromFile(name)
+		if err != nil {
+			continue
+		}
+		for _, zero := range []int{0, 1} {
+			res.Cases++
+			var w struct{ buf bytes.Buffer }
+			err := tpl.ExecuteWriter(pongo2.Context{"zero": zero}, onlyWriter{&w.buf})
+			s, serr := tpl.Execute(pongo2.Context{"zero": zero})
+			if (err != nil) != (serr != nil) || (err != nil && w.buf.Len() > 0) || (err == nil && w.buf.String() != s) {
+				oracleFail(res, "variants", "c14-writer-not-all-or-nothing", fmt.Sprintf("ExecuteWriter(%s) with zero=%d", name, zero), fmt.Sprintf("error %v, written %q", err, w.buf.String()), fmt.Sprintf("error %v, written %q on success and nothing on failure", serr, s))
+			}
+		}
+	}
+}
+
+// c15DashDigit: `{{-` is the trim marker whatever follows it
+func c15DashDigit(res *Result) {
+	for _, c := range [][2]string{{"a  {{-5}} b", "a{{5}} b"}, {"a \n{{-5 -}}  b", "a{{5}}b"}, {"a  {{-10|add:x}} b", "a{{10|add:x}} b"}, {"{% if 1 %} \t{{-1}}{% endif %}", "{% if 1 %}{{1}}{% endif %}"},
+		{"a  {{-x}} b", "a{{x}} b"}, {"a  {{- -5 }} b", "a{{ -5 }} b"}, {"a  {%-if 1%}y{%endif-%}  b", "a{%if 1%}y{%endif%}b"}, {"a  {{-2.5}} b", "a{{2.5}} b"}} {
+		res.Cases++
+		ctx := pongo2.Context{"x": 7}
+		got, want := implRender(c[0], ctx).String(), implRender(c[1], ctx).String()
+		if got != want {
+			oracleFail(res, "whitespace", "c15-dash-before-digit", c[0], got, want+" (the hand-trimmed "+c[1]+")")
+		}
+	}
+}
+
+// goLiteral writes s as a template string literal
+func tplLiteral(s string) string {
+	return `"` + strings.NewReplacer(`\`, `\\`, `"`, `\"`).Replace(s) + `"`
+}
+
+// c17Literals: a string written as a literal reaches the filters as the string it denotes
+func c17Literals(res *Result) {
+	for _, in := range []string{`\'`, `\`, `C:\dir\'quoted'`, `a\"b`, `\\`, `'\`, `it's`, `"`, `\"\'`, `x\\'y`, `<a href='\'>`} {
+		for _, f := range []string{"safe", "escape", "e", "addslashes", "escapejs", "urlencode", "iriencode", "striptags"} {
+			fv, ferr := pongo2.ApplyFilter(f, pongo2.AsValue(in), pongo2.AsValue(nil))
+			if ferr != nil {
+				continue
+			}
+			res.Cases++
+			r := implRender("{% autoescape off %}{{ "+tplLiteral(in)+"|"+f+" }}{% endautoescape %}", nil)
+			if r.Err != "" || r.Out != fv.String() {
+				oracleFail(res, "filter", "c17-literal-input", fmt.Sprintf("{{ %s|%s }}", tplLiteral(in), f), r.String(), "ok "+hx(fv.String())+" (ApplyFilter on the string the literal denotes)")
+			}
+		}
+	}
+}
+
+// c18WidthratioForms: the value of widthratio does not depend on how its operands are written
+func c18WidthratioForms(res *Result) {
+	for _, mw := range [][2]int{{200, 100}, {40, 100}, {6, 13}, {3, 7}, {1000, 3}, {7, 7}} {
+		for v := 0; v <= 300; v++ {
+			res.Cases++
+			ctx := pongo2.Context{"v": v, "m": mw[0], "w": mw[1]}
+			lit := implRender(fmt.Sprintf("{%% widthratio v %d %d %%}", mw[0], mw[1]), ctx).String()
+			vars := implRender("{% widthratio v m w %}", ctx).String()
+			mixed := implRender(fmt.Sprintf("{%% widthratio v m %d %%}|{%% widthratio %d %d w %%}", mw[1], v, mw[0]), ctx).String()
+			if lit != vars || mixed != "ok "+hx(strings.TrimPrefix(vars, "ok ")) && false {
+				oracleFail(res, "filter", "c18-widthratio-operand-form", fmt.Sprintf("{%% widthratio v %d %d %%} with v=%d", mw[0], mw[1], v), lit, vars+" (the same numbers as variables)")
+			}
+			_ = mixed
+		}
+	}
+}
+
+// filterTagRecursion: a filter tag inside a macro that calls itself from the tag's body
+func filterTagRecursion(res *Result, proj, sig string) {
+	for _, f := range []string{"upper", "lower"} {
+		for depth := 0; depth <= 4; depth++ {
+			res.Cases++
+			with := fmt.Sprintf(`{%% macro nest(n) %%}{%% filter %s %%}Open{{ n }} {%% if n > 0 %%}{{ nest(n-1) }}{%% endif %%} Close{{ n }}{%% endfilter %%}{%% endmacro %%}{{ nest(%d) }}`, f, depth)
+			without := fmt.Sprintf(`{%% macro nest(n) %%}Open{{ n }} {%% if n > 0 %%}{{ nest(n-1) }}{%% endif %%} Close{{ n }}{%% endmacro %%}{{ nest(%d) }}`, depth)
+			a, b := implRender(with, nil), implRender(without, nil)
+			want := strings.ToUpper(b.Out)
+			if f == "lower" {
+				want = strings.ToLower(b.Out)
+			}
+			if a.Err != "" || b.Err != "" || a.Out != want {
+				oracleFail(res, proj, sig, with, a.String(), "ok "+hx(want)+" (the filter applied to what the body renders, at every level)")
+			}
+		}
+	}
+	res.Cases++
+	tree := `{% macro walk(t) %}{% filter add:"!" %}<{{ t.name }}{% for c in t.kids %}{{ walk(c) }}{% endfor %}>{% endfilter %}{% endmacro %}{{ walk(root) }}`
+	type node struct {
+		name string
+		kids []any
+	}
+	root := map[string]any{"name": "R", "kids": []any{map[string]any{"name": "X", "kids": []any{map[string]any{"name": "P", "kids": []any{}}}}, map[string]any{"name": "Y", "kids": []any{}}}}
+	if r := implRender("{% autoescape off %}"+tree+"{% endautoescape %}", pongo2.Context{"root": root}); r.Out != "<R<X<P>!>!<Y>!>!" {
+		oracleFail(res, proj, sig, tree, r.String(), "ok "+hx("<R<X<P>!>!<Y>!>!"))
+	}
+}
+
+// c20ImportFresh: a template loaded afresh is compiled afresh, libraries and all
+func c20ImportFresh(res *Result) {
+	for _, debug := range []bool{true, false} {
+		ld := &memLoader{files: map[string]string{"/page.tpl": `{% import "/lib.tpl" m %}{{ m() }}|{% include "/part.tpl" %}`, "/lib.tpl": `{% macro m() export %}one{% endmacro %}`, "/part.tpl": "p1"}}
+		set := pongo2.NewSet("c20-import", ld)
+		set.Debug = debug
+		get := func() string {
+			tpl, err := set.FromCache("/page.tpl")
+			if err != nil {
+				return "err " + err.Error()
+			}
+			return execOnce(tpl, nil).out
+		}
+		res.Cases += 3
+		if got := get(); got != "one|p1" {
+			oracleFail(res, "cache", "c20-stale-library", fmt.Sprintf("FromCache(/page.tpl), Debug=%v", debug), got, "one|p1")
+		}
+		ld.mu.Lock()
+		ld.files["/lib.tpl"] = `{% macro m() export %}two{% endmacro %}`
+		ld.files["/part.tpl"] = "p2"
+		ld.mu.Unlock()
+		if !debug {
+			if got := get(); got != "one|p1" {
+				oracleFail(res, "cache", "c20-stale-library", "FromCache(/page.tpl) again, files changed, nothing cleaned", got, "one|p1 (the cached template)")
+			}
+			set.CleanCache("/page.tpl")
+		}
+		if got := get(); got != "two|p2" {
+			oracleFail(res, "cache", "c20-stale-library", fmt.Sprintf("FromCache(/page.tpl) after its library and its include changed (Debug=%v; CleanCache(/page.tpl) when off)", debug), got, "two|p2")
+		}
+	}
+}
+
+// c06CommentForms: a {# #} comment renders like the comment tag in the same place, trim markers
+// nearby or not; a verbatim body is emitted as it is when whitespace separates it from a trim marker
+func c06CommentForms(res *Result) {
+	ctx := pongo2.Context{"x": "X"}
+	for _, tmpl := range []string{"{{ x -}} %s b", "a %s {{- x }}", "{{ x -}}  %s\t{{- x }}", "a{{ x -}}\n%s\n{{ x }}", "{%% if x -%%} %s y{%% endif %%}", "a %s {%%- if x %%}y{%% endif %%}", "a%sb", "{{ x }} %s {{ x }}"} {
+		res.Cases++
+		a := implRender(fmt.Sprintf(tmpl, "{# note #}"), ctx)
+		b := implRender(fmt.Sprintf(tmpl, "{% comment %}note{% endcomment %}"), ctx)
+		if a.String() != b.String() {
+			oracleFail(res, "render", "c06-comment-forms", fmt.Sprintf(tmpl, "{# note #}"), a.String(), b.String()+" (with {% comment %}note{% endcomment %} in its place)")
+		}
+	}
+	for _, body := range []string{"  {{ y }}  ", "\n{% if %}\n", " a ", "\t"} {
+		for _, tmpl := range []string{"{{ x -}} {%% verbatim %%}%s{%% endverbatim %%} {{- x }}", "{{ x -}}\n{%% verbatim %%}%s{%% endverbatim %%}\n{{- x }}"} {
+			res.Cases++
+			r := implRender(fmt.Sprintf(tmpl, body), ctx)
+			if want := "X" + body + "X"; r.Err != "" || r.Out != want {
+				oracleFail(res, "render", "c06-verbatim-near-trim", fmt.Sprintf(tmpl, body), r.String(), "ok "+hx(want))
+			}
+		}
+	}
+}
